@@ -61,6 +61,16 @@ NEEDS = {
     "C03/m4": ("contains_var_decl_in_scope no longer counts Reference nodes", "loop body / block whose only declaration is var &r = x, executed twice or beside an outer r"),
     "C05/m3": ("Fold_Right node loses the arithmetic_error rethrow (same as C05/m2)", "x / 0, x % 0, INT_MIN / -1 with a literal right operand"),
     "C05/m4": ("Boxed_Number::oper returns true for == when both operands are the same object", "x == x with x NaN (runtime node and function routes)"),
+    "C16/m3": ("buildInt applies the unsigned steps of the typing sequence to prefixed literals only", "unsuffixed octal literal in [2^31, 2^32): typed long instead of unsigned int"),
+    "C16/m4": ("parse_num stops accumulating fraction digits after max_digits10 decimal places", "positional floating literal with leading zeros after the point and > 17 (9 for f) fraction places"),
+    "C17/m3": ("join() emits the delimiter only once the result is non-empty (same as C17/m1)", "containers whose leading element(s) stringify to the empty string"),
+    "C17/m4": ("ltrim() rewritten with find_first_not_of + substr", "empty or all-whitespace string: std::out_of_range instead of the empty string"),
+    "C18/m3": ("parse_object parses keys with depth 0 (same as C18/m1)", "nesting through object key positions"),
+    "C18/m4": ("json_escape writes control characters as \\u00XX, which parse_string does not decode", "strings or keys containing 0x01-0x07, 0x0b, 0x0e-0x1f"),
+    "C19/m3": ("BOM skipped only when size > 3 (same as C19/m1)", "a file that is exactly the three BOM bytes"),
+    "C19/m4": ("use() returns early when path + name is recorded for ANY use path, before looking for the file", "same base name under two use paths where one extends the other; use(\"lib/x\") then use(\"x\")"),
+    "C20/m3": ("Position::operator-(n) computed with pointer/column arithmetic (same as C20/m2)", "CRLF line ends with a // or # comment earlier in the chunk"),
+    "C20/m4": ("Unused_Return gives loop-body call statements the location of the loop body (same as C20/m1)", "a call that is a non-first statement of a while/for body"),
     "C04/m3": ("get_object: the loop checking nearer scopes for a shadowing declaration keeps only the last scope's verdict", "a variable first found >=2 scopes out, later a same-named variable (eval) in a nearer, non-adjacent scope"),
     "C04/m4": ("QuickFlatMap::find trusts a non-zero position hint without comparing the key", "set_state, then the functions are redefined in a different order: nodes evaluated before keep stale hints"),
     "C06/m3": ("Dynamic_Caster uses static_pointer_cast for const shared_ptr-held objects", "a const, shared_ptr-held Base (or sibling) passed where const Derived& is expected"),
